@@ -293,9 +293,12 @@ int accept(ACCEPTPARAMS) {
     fibershim_accept = (acceptFnType)dlsym(RTLD_NEXT, "accept");
   }
 
+  // retry until a connection is really there: with several fibers blocked in
+  // accept() on one listener all of them are woken for a single connection
+  // and all but one find nothing
   int sock = fibershim_accept(sockfd, addr, addrlen);
-  if (sock < 0 && (errno == EWOULDBLOCK || errno == EAGAIN) &&
-      should_block(sockfd)) {
+  while (sock < 0 && (errno == EWOULDBLOCK || errno == EAGAIN) &&
+         should_block(sockfd)) {
     if (!fiber_wait_for_event(sockfd, FIBER_POLL_IN)) {
       return -1;
     }
